@@ -67,6 +67,42 @@ type CAOpts struct {
 	Serial    int64
 	SKI       []byte
 	SubjectOf *CA // copy the subject DN of another CA (sibling with the same name)
+	DNShape   int // 0: canonical (O, CN); other values: name shapes outside Go's canonical pkix.Name form
+}
+
+// dnShape returns the raw DER of a subject name in one of several shapes that real CAs use and that the
+// lossy pkix.Name view does not reproduce: domainComponent RDNs, LDAP order, repeated attribute types,
+// emailAddress, a multi-valued RDN.
+func dnShape(cn string, shape int) []byte {
+	oidCN, oidO, oidC, oidOU := asn1.ObjectIdentifier{2, 5, 4, 3}, asn1.ObjectIdentifier{2, 5, 4, 10}, asn1.ObjectIdentifier{2, 5, 4, 6}, asn1.ObjectIdentifier{2, 5, 4, 11}
+	oidDC := asn1.ObjectIdentifier{0, 9, 2342, 19200300, 100, 1, 25}
+	oidEmail := asn1.ObjectIdentifier{1, 2, 840, 113549, 1, 9, 1}
+	one := func(t asn1.ObjectIdentifier, v string) pkix.RelativeDistinguishedNameSET {
+		return pkix.RelativeDistinguishedNameSET{{Type: t, Value: v}}
+	}
+	ia5 := func(t asn1.ObjectIdentifier, v string) pkix.RelativeDistinguishedNameSET {
+		return pkix.RelativeDistinguishedNameSET{{Type: t, Value: asn1.RawValue{Tag: asn1.TagIA5String, Bytes: []byte(v)}}}
+	}
+	var seq pkix.RDNSequence
+	switch shape {
+	case 1: // Active Directory style
+		seq = pkix.RDNSequence{ia5(oidDC, "corp"), ia5(oidDC, "example"), one(oidCN, cn)}
+	case 2: // LDAP order
+		seq = pkix.RDNSequence{one(oidCN, cn), one(oidO, "Sim"), one(oidC, "DE")}
+	case 3: // the same attribute type in two RDNs
+		seq = pkix.RDNSequence{one(oidC, "DE"), one(oidO, "Sim"), one(oidOU, "Unit A"), one(oidOU, "Unit B"), one(oidCN, cn)}
+	case 4: // OpenSSL style with emailAddress
+		seq = pkix.RDNSequence{one(oidC, "DE"), one(oidO, "Sim"), one(oidCN, cn), ia5(oidEmail, "ca@example.sim")}
+	case 5: // multi-valued RDN
+		seq = pkix.RDNSequence{one(oidO, "Sim"), pkix.RelativeDistinguishedNameSET{{Type: oidCN, Value: cn}, {Type: oidOU, Value: "Multi"}}}
+	default:
+		return nil
+	}
+	b, err := asn1.Marshal(seq)
+	if err != nil {
+		panic(err)
+	}
+	return b
 }
 
 var caSerial int64 = 1000
@@ -110,6 +146,8 @@ func NewCA(parent *CA, o CAOpts) *CA {
 	}
 	if o.SubjectOf != nil {
 		tmpl.RawSubject = o.SubjectOf.Cert.RawSubject
+	} else if raw := dnShape(o.CN, o.DNShape); raw != nil {
+		tmpl.RawSubject = raw
 	}
 	if !o.NoKeyUse {
 		tmpl.KeyUsage = o.KeyUsage
